@@ -274,6 +274,53 @@ def t_conn_excl():
     return g.set_start_nodes({r}), dict(sel=[c1], conn=[cc], src=s, tgt=t)
 
 
+def t_conn_excl_shift():
+    """an exclusion edge whose source comes after a conditional source: in the scenario without S0 the indices shift"""
+    B, N, CN, *_ = _imp()
+    g = B()
+    r = N('R')
+    a = [N('A0'), N('A1')]
+    s = [CN('S0', deg_spec='*'), CN('S1', deg_spec='*'), CN('S2', deg_spec='?')]
+    t = [CN('T0', deg_spec='*'), CN('T1', deg_spec='?')]
+    c1 = g.add_selection_choice('C1', r, a)
+    g.add_edges([(a[1], s[0]), (r, s[1]), (r, s[2]), (r, t[0]), (r, t[1])])
+    cc = g.add_connection_choice('K', s, t, exclude=[(s[1], t[0])])
+    return g.set_start_nodes({r}), dict(sel=[c1], conn=[cc], src=s, tgt=t)
+
+
+def t_conn_two_infeasible():
+    """two connection choices; the FIRST one has a scenario without any valid connection set (a source needs exactly two
+    non-parallel connections, one of its two targets is tied to a selection option)"""
+    B, N, CN, *_ = _imp()
+    g = B()
+    r = N('R')
+    a = [N('A0'), N('A1')]
+    s = [CN('S0', deg_list=[2])]
+    t = [CN('T0', deg_spec='?'), CN('T1', deg_spec='?')]
+    u = [CN('U0', deg_spec='?')]
+    v = [CN('V0', deg_spec='?'), CN('V1', deg_spec='?')]
+    c1 = g.add_selection_choice('C1', r, a)
+    g.add_edges([(r, s[0]), (r, t[0]), (a[1], t[1]), (r, u[0]), (r, v[0]), (r, v[1])])
+    k1 = g.add_connection_choice('K1', s, t)
+    k2 = g.add_connection_choice('K2', u, v)
+    return g.set_start_nodes({r}), dict(sel=[c1], conn=[k1, k2], src=s, tgt=t)
+
+
+def t_conn_group_no_counterpart():
+    """grouping connector over an optional and a required member; its only counterpart is tied to a selection option"""
+    B, N, CN, G, *_ = _imp()
+    g = B()
+    r = N('R')
+    a = [N('A0'), N('A1')]
+    m = [CN('M0', deg_spec='?'), CN('M1', deg_list=[1])]
+    grp = G('GRP')
+    t = [CN('T0', deg_spec='*', repeated_allowed=True)]
+    c1 = g.add_selection_choice('C1', r, a)
+    g.add_edges([(r, m[0]), (r, m[1]), (a[1], t[0])])
+    cc = g.add_connection_choice('K', [(grp, m)], t)
+    return g.set_start_nodes({r}), dict(sel=[c1], conn=[cc], src=[grp], tgt=t, members={grp: m})
+
+
 def t_conn_two():
     B, N, CN, *_ = _imp()
     g = B()
@@ -312,6 +359,8 @@ TEMPLATES = {
     'conn_simple': t_conn_simple, 'conn_cond': t_conn_cond, 'conn_opt_src': t_conn_opt_src,
     'conn_infeasible_scenario': t_conn_infeasible_scenario, 'conn_group': t_conn_group,
     'conn_group_finite': t_conn_group_finite, 'conn_group_open': t_conn_group_open, 'conn_group_open2': t_conn_group_open2, 'conn_excl': t_conn_excl, 'conn_two': t_conn_two, 'conn_dv': t_conn_dv,
+    'conn_excl_shift': t_conn_excl_shift, 'conn_two_infeasible': t_conn_two_infeasible,
+    'conn_group_no_counterpart': t_conn_group_no_counterpart,
 }
 CONN_TEMPLATES = [k for k in TEMPLATES if k.startswith('conn_')]
 NO_CONN_TEMPLATES = [k for k in TEMPLATES if not k.startswith('conn_')]
